@@ -6,6 +6,7 @@ mod gating;
 mod gen;
 mod lex;
 mod lit;
+mod parse;
 mod pipe;
 mod symtab;
 mod types;
@@ -25,6 +26,10 @@ fn main() {
         "probe" => pipe::probe(rest),
         "gating-cases" => gating::cases(rest),
         "lit-cases" => lit::cases(rest),
+        "parse-record" => parse::record(rest),
+        "parse-tokens" => parse::tokens(rest),
+        "check-text" => parse::check_one(rest),
+        "events" => parse::dump_events(rest),
         "lex-cases" => lex::cases(rest),
         "lex-exhaustive" => lex::exhaustive(rest),
         "lex-record" => lex::record(rest),
